@@ -41,6 +41,7 @@ Inductive cresult := CROk | CRErr (code : N) | CRPanic.
 Inductive kind :=
 (* environment *)
 | KIssue (c : nat) (k : cmdkind) (name : str)
+| KParams (c : nat) (deploy_timeout drain_timeout fail_after : N)   (* the command's durations (ns); follows its KIssue *)
 | KReturn (c : nat) (r : cresult)
 | KArrive (r : nat)
 | KRespond (r : nat) (status : N) (served_by : str)
